@@ -15,8 +15,8 @@ open Agent Bp
 theorem C10_facts :
     rxChain = [.adminRoute, .static, .reasm, .bcb, .bib, .adminHandle]
     ∧ (Facts.chainSteps.filter (fun s => s.1 == "rx_chain")).map (fun s => (s.2.1, s.2.2.2))
-        = [(0, "_do_rx_step"), (10, "_reassemble"), (19, "_verify_bcb"), (20, "_verify_bib"),
-           (-1, "_rx_route"), (30, "_recv_bundle")]
+        = [(-1, "_rx_route"), (0, "_do_rx_step"), (10, "_reassemble"), (19, "_verify_bcb"), (20, "_verify_bib"),
+           (30, "_recv_bundle")]
     ∧ Facts.enum_blocks_PrimaryBlock_Flag_IS_FRAGMENT = 1 := by
   refine ⟨by decide, by decide, by decide⟩
 
